@@ -1,5 +1,5 @@
 (* Model/C16Run.v - case type and checker evaluated on harness-generated cases (C16) *)
-From ReqV Require Export Lib.Bytes Model.HeaderOrder Model.HeaderCollect Model.HeaderMerge Model.HeaderSeq Model.HeaderResend.
+From ReqV Require Export Lib.Bytes Model.HeaderOrder Model.HeaderCollect Model.HeaderMerge Model.HeaderSeq Model.HeaderResend Model.HeaderFrag Model.HeaderRedirect.
 
 Inductive seq_outcome :=
 | SSent (obs : list line)    (* the origin's view of that request *)
@@ -30,7 +30,14 @@ Inductive c16_case :=
 (* ONE Request object executed several times: per execution the setter calls made on the request
    before it, the client's header map at that moment, and the header map the protocol writer
    received (sorted by key; cookies aside) *)
-| ResendCase (steps : list (list hdr_op * list kv * list kv)).
+| ResendCase (steps : list (list hdr_op * list kv * list kv))
+(* the frames of one HTTP/2 header block as the client wrote them (payload length, END_HEADERS):
+   HEADERS priority configured or not, the peer's MAX_FRAME_SIZE, the length of the block *)
+| FragCase (prio : bool) (max len : N) (frames : list (N * bool))
+(* a hop after a redirect: the initial request's header map at the transport, the names given to
+   AlwaysCopyHeaderRedirectPolicy, whether the chain has left the initial domain, and the hop's
+   header map at the transport (sorted by key, the Referer net/http adds aside) *)
+| RedirCase (initial : list kv) (names : list bytes) (strip : bool) (hop : list kv).
 
 Fixpoint ascending (l : list nat) : bool :=
   match l with
@@ -88,7 +95,15 @@ Fixpoint resend_check (s : list rentry) (steps : list (list hdr_op * list kv * l
 
 Definition c16_check (c : c16_case) : bool :=
   match c with
+  | RedirCase initial names strip hop =>
+      (* the HTTP/1.1 writer sanitises the values of the header map IN PLACE while it writes hop 0
+         (header.go headerWriteSubset: kv.Values[i] = vv), and net/http copies those slices to the next
+         hop: values are compared after sanitising *)
+      let san := map (fun x : kv => (fst x, map sanitize (snd x))) in
+      list_eqb kv_eqb (san (sort_by_key (hop_hdr initial names strip))) (san hop)
   | ResendCase steps => resend_check [] steps
+  | FragCase prio max len frames =>
+      list_eqb (fun a b : N * bool => (fst a =? fst b)%N && Bool.eqb (snd a) (snd b)) (write_headers_len prio max len) frames
   | SeqCase proto max steps => forallb (seq_step_check proto max) steps
   | CloneCase ops members => forallb (clone_member_check (fam_run ops)) members
   | SortCase kvs order perm =>
